@@ -49,7 +49,6 @@ structure IndexCtx where
   master : List Obj
   multiple : List Str      -- _multiple_scopes ∪ _multiple_defs
 
-def rootOf (objs : List Obj) : Obj := .scope { name := [], id := some 0 } objs
 
 /-- the kernel of the concrete index: working sets are root object lists -/
 def concreteKernel (c : IndexCtx) : Index.Kernel (List Obj) PVal Str where
